@@ -456,13 +456,13 @@ EQ_TOL = 1e-10
 NE_TOL = 1e-6
 
 
-def prop_optimize(case):
+def prop_optimize(case, continued=False):
     from glotaran.optimization.data_provider import AlignDatasetError
     from glotaran.optimization.optimize import optimize
     from vlib import testmc
 
     _validate(case)
-    sub = "optimize"
+    sub = "optimize_continued" if continued else "optimize"
     axes = [[float(x) for x in ax] for ax in case["axes"]]
     n = len(axes)
     tol, method = float(case["tol"]), case["method"]
@@ -479,6 +479,9 @@ def prop_optimize(case):
     try:
         with expect_ok(f"{sub}.call.{method}", allowed=(AlignDatasetError,)):
             res = optimize(scheme, verbose=False, raise_exception=True)
+            if continued:
+                # r6c09B: the fit is continued from the Result (Result.get_scheme()): same datasets, same linking options
+                res = optimize(res.get_scheme(), verbose=False, raise_exception=True)
     except AlignDatasetError:
         raised = True
     if raised:
@@ -610,6 +613,9 @@ PROPERTY = Property(
             doc="same oracle, 2-4 datasets with larger random axes"),
         Sub("optimize", prop=prop_optimize, strategy=lambda: optimize_cases(), budget={"quick": 800, "thorough": 40000},
             doc="optimize(): clps identical iff same aligned point, stacked least-squares solution, original coordinates"),
+        Sub("optimize_continued", prop=lambda case: prop_optimize(case, continued=True), strategy=lambda: optimize_cases(),
+            budget={"quick": 300, "thorough": 15000},
+            doc="the same clauses on the Result of a second optimize() started from result.get_scheme() (continued fit keeps the linking options)"),
     ],
     assumptions=[
         "alignment reference model written from the statement; 'within tolerance' is inclusive (exact rational comparison of the given floats); "
